@@ -988,6 +988,10 @@ class Envelope:
         if self.state is None:
             return self.fock.resize(new_dimensions)
 
+        # Bring the fock space to the front now: the occupation check below traces
+        # out (and thereby reorders), after the tensor shape has been fixed
+        self.reorder(self.fock)
+
         reshape_shape = [-1, -1]
         assert isinstance(self.fock.dimensions, int)
         assert isinstance(self.fock.index, int)
